@@ -58,20 +58,39 @@ Theorem C13_dial_refused_transient : forall cfg tls p script,
   attempt_of (res (connect cfg false tls p script)) = AFailTransient.
 Proof. reflexivity. Qed.
 
-(* TLS policy failure is permanent: cleartext not allowed and STARTTLS not offered,
-   refused, or failing certificate verification *)
+(* TLS policy failure is permanent: cleartext not allowed and STARTTLS not offered, refused
+   (the server answers with something else than <proceed/>), or failing certificate
+   verification *)
 Theorem C13_tls_policy_permanent : forall cfg tls p id f rest,
   c_insecure cfg = false ->
-  (f_tls f = TlsNone \/ (forall r, rest <> SProceed :: r) \/ tls = false) ->
+  (f_tls f = TlsNone \/
+   ((forall r, rest <> SProceed :: r) /\ is_cut rest = false) \/
+   ((exists r, rest = SProceed :: r) /\ tls = false)) ->
   attempt_of (res (connect cfg true tls p (SHeader id :: SFeatures f :: rest))) = AFailPermanent.
 Proof.
   intros cfg tls p id f rest Hi H. unfold connect, res. cbn [negb read_header read_features]. rewrite Hi.
   destruct (f_tls f) eqn:Et; [reflexivity| |].
-  all: destruct H as [H|[H|H]]; try discriminate.
-  all: destruct rest as [|[] r]; try reflexivity; cbn [read_proceed].
-  all: try (exfalso; eapply H; reflexivity).
-  all: try (rewrite H; reflexivity).
-  all: destruct tls; try reflexivity.
+  all: destruct H as [H|[[H Hc]|[[r ->] ->]]]; try discriminate; try reflexivity.
+  all: destruct rest as [|[] r]; try discriminate Hc; try reflexivity.
+  all: exfalso; eapply H; reflexivity.
+Qed.
+
+(* ... and a connection that is cut in the middle of the negotiation is not: after the
+   server's stream header and before its features; or, TLS being mandatory, after the
+   client's <starttls/> and before <proceed/>.  The retry loop goes on (is_fail). *)
+Theorem C13_cut_in_negotiation_transient : forall cfg tls p id f rest,
+  is_cut rest = true ->
+  attempt_of (res (connect cfg true tls p (SHeader id :: rest))) = AFailTransient /\
+  (f_tls f <> TlsNone ->
+   attempt_of (res (connect cfg true tls p (SHeader id :: SFeatures f :: rest))) = AFailTransient) /\
+  is_fail AFailTransient = true.
+Proof.
+  intros cfg tls p id f rest Hc. repeat split.
+  - unfold connect, res. cbn [negb read_header].
+    destruct rest as [|[] r]; try discriminate Hc; reflexivity.
+  - intros Ht. unfold connect, res. cbn [negb read_header read_features].
+    destruct (f_tls f) eqn:Et; [congruence| |].
+    all: destruct rest as [|[] r]; try discriminate Hc; cbn [read_proceed]; destruct (c_insecure cfg); reflexivity.
 Qed.
 
 (* rejected credentials are permanent (here: no STARTTLS offered, cleartext allowed;
@@ -98,4 +117,5 @@ Print Assumptions C13_permanent_stops.
 Print Assumptions C13_stop_returns.
 Print Assumptions C13_dial_refused_transient.
 Print Assumptions C13_tls_policy_permanent.
+Print Assumptions C13_cut_in_negotiation_transient.
 Print Assumptions C13_rejected_credentials_permanent.
